@@ -15,14 +15,21 @@ LEVEL_TEXT = (
     "flow-sensitively, on every path, no object that may be the one currently held in a Local/LocalStack ContextVar (the result "
     "of `<storage>.get(...)`, through local names, helper returns and helper parameters) is the receiver of an in-place mutation "
     "(subscript store/delete, augmented assignment, typeshed's list/dict/set mutator methods, operator.setitem & co.), and every "
-    "object bound with `<storage>.set(v)` was created in the same call (literal, .copy(), slice, list()/dict(), a + b); (R18.2) "
-    "release rebinds the ContextVar to an empty container of the payload's kind on every path and mutates nothing, "
+    "object bound with `<storage>.set(v)` was created in the same call (literal, .copy(), slice, list()/dict(), a + b, `*rest` unpacking); "
+    "a ContextVar handed to a helper of the module as an argument stays a storage inside the helper, and any other use of it "
+    "(returned, passed to foreign code, .reset) is ANALYSIS-ERROR because reads/bindings could then happen out of sight; (R18.2) "
+    "release rebinds the ContextVar (directly or through a helper that unconditionally sets its parameter) to an empty container "
+    "of the payload's kind on every path and mutates nothing, "
     "release_local / LocalManager.cleanup release every managed local, unconditionally, by a plain call in the calling context; "
+    "what LocalManager.__init__ stores contains the locals it was given on every path where some were given (through local names, "
+    "conditional expressions, or a container filled afterwards by append/extend/+=) and is a container materialised in the "
+    "constructor (literal, list()/tuple(), comprehension, [*x]) - never the caller's iterable itself, which may be a one-shot "
+    "iterator that the first cleanup() exhausts; "
     "(R18.3) LocalProxy.__init__ performs no lookup on the proxied object (it is only type-tested and stored), every installed "
     "_get_current_object variant reads it at call time and keeps no state, _ProxyLookup.__get__ calls _get_current_object on "
     "every instance access and stores nothing, Local()/LocalStack() hand the local itself to the proxy; (R18.4) with an empty "
     "payload, Local.__getattr__/__delattr__ raise AttributeError and LocalStack.top/pop return None (abstract execution of the "
-    "method with the payload known to be empty), every `.get` on a storage passes an empty default, each proxy variant turns that "
+    "method with the payload known to be empty, following helpers of the module it calls), every `.get` on a storage passes an empty default (literally, or through a helper parameter at every call site), each proxy variant turns that "
     "outcome (AttributeError / None / LookupError) into RuntimeError, _ProxyLookup.__get__ catches RuntimeError, re-raises it exactly "
     "when no fallback was declared and otherwise returns the fallback, __bool__'s fallback returns False and __repr__'s fallback does "
     "not go through the bound object; (R18.5) Local/LocalStack instances have no storage besides the ContextVar (__slots__), the "
@@ -191,7 +198,7 @@ def run(ctx: Ctx) -> None:
     mod = repo.module(LOCAL)
     for rid, text in {
         "R18.1": "copy-on-write: no object that may be the current ContextVar payload (result of <storage>.get) is mutated in place on any path, and every <storage>.set(v) binds an object created in the same call",
-        "R18.2": "release rebinds the ContextVar to an empty container of the payload's kind on every path; release_local and LocalManager.cleanup release every managed local unconditionally in the calling context",
+        "R18.2": "release rebinds the ContextVar to an empty container of the payload's kind on every path; release_local and LocalManager.cleanup release every managed local unconditionally in the calling context; LocalManager.__init__ stores every local it was given, in a container materialised in the constructor (never the caller's possibly one-shot iterable)",
         "R18.3": "late binding: LocalProxy.__init__ only type-tests and stores the proxied object, each _get_current_object variant reads it at call time and keeps no state, _ProxyLookup.__get__ resolves on every instance access and stores nothing",
         "R18.4": "unbound behaviour: an empty payload reads as AttributeError / None, each proxy variant turns that into RuntimeError, _ProxyLookup.__get__ re-raises it exactly when no fallback is declared, __bool__ falls back to False and __repr__ to a text not derived from the bound object",
         "R18.5": "no other storage: Local/LocalStack instances hold only the ContextVar (__slots__), bound once in __init__; no mutable module-level or class-level container",
@@ -225,18 +232,41 @@ def _class_units(flow: Flow, c: ClassInfo) -> list[Unit]:
     return [u for u in flow.units if u.cls is c]
 
 
+def _readers(flow: Flow, storage, c: ClassInfo) -> list[tuple[Unit, ast.Call]]:
+    """`.get` calls on the ContextVar of storage class c: in its own methods, and in helpers outside the storage classes
+    that are handed the ContextVar (or the instance) by a method of c."""
+    out: list[tuple[Unit, ast.Call]] = []
+    for u in flow.units:
+        gets = flow.storage_calls(u, "get")
+        if not gets:
+            continue
+        if u.cls is not None and u.cls.name in storage:
+            owners = [u.cls]
+        else:
+            owners = [cu.cls for cu, _, _ in flow.call_sites(u) if cu.cls is not None and cu.cls.name in storage]
+        for g in gets:
+            own = list(owners)
+            if not own:  # nobody in the module calls it: the class whose slot the receiver names
+                recv = g.func.value if isinstance(g.func, ast.Attribute) else None
+                if isinstance(recv, ast.Attribute):
+                    own = [c2 for c2, sl in storage.values() if mangle(u.clsname, recv.attr) in sl]
+            if any(o is c for o in own):
+                out.append((u, g))
+    return out
+
+
 def _payload_kinds(ctx: Ctx, flow: Flow, storage) -> dict[str, str]:
     """per storage class the container kind its `.get(<default>)` calls agree on; each default is an R18.4 obligation."""
     kinds: dict[str, str] = {}
     for cname, (c, _) in sorted(storage.items()):
         seen: dict[str, int] = {}
-        for u in _class_units(flow, c):
-            for g in flow.storage_calls(u, "get"):
-                k = is_empty_literal(g.args[0]) if g.args else None
-                ctx.ob("R18.4", f"{u.fi.qualname}: an unset context reads as the empty payload", k in ("dict", "list"),
-                       f"`{norm(g)}`: default is {'an empty ' + k if k else 'missing or not an empty container literal (unset raises LookupError / differs from released)'}", u.fi, g, f"default of {norm(g)}")
-                if k:
-                    seen[k] = seen.get(k, 0) + 1
+        for u, g in _readers(flow, storage, c):
+            k = flow.default_kind(g.args[0], u, c) if g.args else None
+            who = u.fi.qualname if u.cls is c else f"{u.fi.qualname} (for {cname})"
+            ctx.ob("R18.4", f"{who}: an unset context reads as the empty payload", k in ("dict", "list"),
+                   f"`{norm(g)}`: default is {'an empty ' + k if k else 'missing or not an empty container literal (unset raises LookupError / differs from released)'}", u.fi, g, f"default of {norm(g)}" + ("" if u.cls is c else f" for {cname}"))
+            if k:
+                seen[k] = seen.get(k, 0) + 1
         if not seen:
             raise AnalysisError(f"{cname}: no `.get(<empty literal>)` on its ContextVar, payload kind unknown")
         kinds[cname] = max(seen, key=lambda k: seen[k])
@@ -268,6 +298,52 @@ def _mutations(flow: Flow, u: Unit, muts: set[str]):
                     yield n, norm(n.args[0]), flow.tags(n.args[0], u), norm(n)
 
 
+def _slot_uses_understood(ctx: Ctx, flow: Flow, storage) -> None:
+    """every expression that evaluates to a storage ContextVar is used in a way the analysis follows: receiver of
+    .get/.set, plain alias, argument of a helper of this module, identity test, or the constructor's store.  Anything
+    else (returned, handed to foreign code, .reset ...) means reads or bindings may happen where the rules do not look:
+    cannot decide.  This replaces a fixed count of `.get`/`.set` sites, which merged or extracted code undercuts."""
+    for u in flow.units:
+        for e in u.walk():
+            if not isinstance(e, (ast.Attribute, ast.Name, ast.Call)) or not isinstance(getattr(e, "ctx", ast.Load()), ast.Load):
+                continue
+            if isinstance(e, ast.Attribute) and not (flow.self_ref(e.value, u) or isinstance(e.value, ast.Name)):
+                continue
+            if not flow.is_storage(e, u):
+                continue
+            par = astq.parent(e)
+            while isinstance(par, ast.NamedExpr) and par.value is e:
+                e, par = par, astq.parent(par)
+            ok = False
+            if isinstance(par, ast.Attribute) and par.value is e:
+                ok = par.attr in ("get", "set", "name")
+            elif isinstance(par, (ast.Assign, ast.AnnAssign)) and par.value is e:
+                tgs = par.targets if isinstance(par, ast.Assign) else [par.target]
+                ok = all(isinstance(x, ast.Name) for x in tgs) or (u.fi.name == "__init__" and u.outer is None)
+            elif isinstance(par, ast.Compare) and all(isinstance(o, (ast.Is, ast.IsNot)) for o in par.ops):
+                ok = True
+            elif isinstance(par, ast.Expr):
+                ok = True
+            elif isinstance(par, ast.Call) and any(x is e for x in par.args) or isinstance(par, ast.keyword):
+                call = par if isinstance(par, ast.Call) else astq.parent(par)
+                if isinstance(call, ast.Call):
+                    d = dotted(call.func)
+                    if d in ("isinstance", "id", "type", "repr"):
+                        ok = True
+                    elif d in ("object.__setattr__", "setattr", "super().__setattr__"):
+                        ok = u.fi.name == "__init__" and u.outer is None
+                    else:
+                        callees = flow.callees(call, u)
+                        ok = bool(callees)
+                        for cu, off in callees:
+                            a = cu.fi.node.args
+                            names = [x.arg for x in a.posonlyargs + a.args + a.kwonlyargs]
+                            if not any(flow.site_arg(cu, nm, call, off)[1] is e for nm in names):
+                                ok = False
+            if not ok:
+                ctx.error(f"R18.1: the storage ContextVar `{norm(e)}` in {u.fi.qualname} is used in a way the analysis does not follow (`{norm(par) if par is not None else '?'}`): reads/bindings may happen out of sight")
+
+
 def _r1(ctx: Ctx, flow: Flow, storage) -> None:
     repo = ctx.repo
     muts = repo.mutators("list") | repo.mutators("dict") | repo.mutators("set")
@@ -276,7 +352,13 @@ def _r1(ctx: Ctx, flow: Flow, storage) -> None:
         for g in flow.storage_calls(u, "get"):
             flow.tags(g, u)  # registers the origin
             gets.append((u, g))
-    ctx.floor("R18.1", "reads of a storage ContextVar (`<storage>.get`)", len(gets), 7)
+    # every storage class has at least one read (checked with the payload kinds); merging duplicated reads into one helper
+    # must not undercut the floor, so it only guards against the matcher finding nothing at all
+    ctx.floor("R18.1", "reads of a storage ContextVar (`<storage>.get`)", len(gets), 1)
+    for need, table in (("append", "list"), ("pop", "list"), ("update", "dict"), ("clear", "dict"), ("add", "set")):
+        if need not in repo.mutators(table):
+            raise AnalysisError(f"typeshed mutator table of {table} lacks `{need}`: in-place mutations would go unseen")
+    _slot_uses_understood(ctx, flow, storage)
 
     reached: dict[int, list[str]] = {}
     n_mut = 0
@@ -290,7 +372,7 @@ def _r1(ctx: Ctx, flow: Flow, storage) -> None:
                    f"receiver `{recv}` is {flow.describe(tags)}" + ("" if not sh else ": on some path it is the object other contexts may hold, mutated in place"), u.fi, node, construct)
             for s in sh:
                 reached.setdefault(s[1], []).append(f"{u.fi.qualname}: `{construct}`")
-    ctx.floor("R18.1", "in-place mutations of payload-typed containers", n_mut, 3)
+    # no floor on n_mut: a functional rewrite (`{**old, k: v}`, `old + [x]`, a comprehension) legitimately has none
     for u, g in gets:
         if id(g) not in reached:
             ctx.ob("R18.1", f"{u.fi.qualname}: the payload read by `{norm(g)}` is never mutated in place", True, "reaches no mutation site (through names, helper returns or helper parameters)", u.fi, g, f"read {norm(g)}")
@@ -305,12 +387,115 @@ def _r1(ctx: Ctx, flow: Flow, storage) -> None:
             ctx.ob("R18.1", f"{u.fi.qualname}: `{norm(s)}` binds an object created in this call", ok,
                    f"argument is {flow.describe(tags)}" + ("" if ok else " on some path: not a private copy"), u.fi, s, norm(s))
     # a release method that lost its `.set` is reported by R18.2; it must not hide behind this floor
-    lacking = [cn for cn, (c, _) in storage.items() if "__release_local__" in c.methods and not flow.storage_calls(flow.unit_of(c.methods["__release_local__"]), "set")]
-    ctx.floor("R18.1", "bindings of a storage ContextVar (`<storage>.set`; plus release methods without one, reported by R18.2)", n_set + len(lacking), 6)
+    lacking = [cn for cn, (c, _) in storage.items() if "__release_local__" in c.methods and not flow.bindings(flow.unit_of(c.methods["__release_local__"]))]
+    ctx.floor("R18.1", "bindings of a storage ContextVar (`<storage>.set`; plus release methods without one, reported by R18.2)", n_set + len(lacking), 2)
 
 
 # ---------------------------------------------------------------------------
 # R18.2
+
+
+class _Keeps:
+    """does a value stored by LocalManager.__init__ contain what the caller passed in parameter ``lp``?  Local names are
+    followed through their reaching definitions, conditional expressions and branches are excused exactly where the
+    parameter is known to be None, and a container that starts empty may be filled afterwards."""
+
+    GROW = {"append", "extend", "insert", "add", "update"}
+
+    def __init__(self, flow: Flow, u: Unit, lp: str, attr: str):
+        self.flow, self.u, self.lp, self.attr = flow, u, lp, attr
+        cfg = u.cfg
+        self.none_edges = []
+        for t_ in cfg.tests():
+            nl = _none_test(t_, lambda e: astq.is_name(e, lp))
+            if nl is not None:
+                self.none_edges.append((t_, nl))
+            elif t_.kind == "test" and astq.is_name(t_.ast, lp):
+                self.none_edges.append((t_, "F"))  # `if not locals`: None or an empty collection - nothing to keep either way
+
+    def absent(self, node: Node) -> bool:
+        return any(self.u.cfg.edge_dominates(t_, l, node) for t_, l in self.none_edges)
+
+    def keeps(self, e: ast.AST | None, node: Node, depth: int = 0) -> str | None:
+        """reason text when e (evaluated in node) keeps the locals, else None."""
+        if e is None or depth > 6:
+            return None
+        if self.absent(node):
+            return "only when no locals were given"
+        if isinstance(e, ast.IfExp):
+            nl = None
+            t_ = e.test.operand if isinstance(e.test, ast.UnaryOp) and isinstance(e.test.op, ast.Not) else e.test
+            flip = t_ is not e.test
+            if isinstance(t_, ast.Compare) and len(t_.ops) == 1:
+                l, op, r = t_.left, t_.ops[0], t_.comparators[0]
+                if astq.is_none(l):
+                    l, r = r, l
+                if astq.is_none(r) and astq.is_name(l, self.lp):
+                    nl = isinstance(op, (ast.Is, ast.Eq)) != flip  # True: body is the None branch
+            elif astq.is_name(t_, self.lp):
+                nl = flip  # `x if locals else []` / `[] if not locals else x`
+            parts = []
+            for is_body, br in ((True, e.body), (False, e.orelse)):
+                if nl is not None and nl == is_body:
+                    continue
+                parts.append(self.keeps(br, node, depth + 1))
+            return None if (not parts or any(p is None for p in parts)) else parts[0]
+        for x in ast.walk(e):
+            if not isinstance(x, ast.Name) or not isinstance(x.ctx, ast.Load):
+                continue
+            if x.id == self.lp:
+                return "built from the parameter"
+            defs = self.u.rd.reaching(node, x.id)
+            if defs and all(self._def_keeps(d, depth) for d in defs):
+                return f"built from `{x.id}`, which holds the parameter's locals"
+        return None
+
+    def _def_keeps(self, d, depth: int) -> bool:
+        if d.node is None or d.value is None or d.kind not in ("assign", "walrus", "unpack", "for", "aug"):
+            return False
+        if self.keeps(d.value, d.node, depth + 1) is not None:
+            return True
+        return self.built_up(d.node, lambda e, nm=d.name: astq.is_name(e, nm))
+
+    def built_up(self, start: Node, is_recv) -> bool:
+        """every path from start to the normal exit on which locals were given passes a statement that puts them into the container."""
+        cfg = self.u.cfg
+        grow: list[Node] = []
+        for n in cfg.nodes:
+            a = n.ast
+            if a is None or n is start:
+                continue
+            hit = False
+            if n.kind == "stmt" and isinstance(a, ast.AugAssign) and is_recv(a.target) and self.keeps(a.value, n, 1) is not None:
+                hit = True
+            elif n.kind in ("stmt", "test"):
+                for c_ in ast.walk(a):
+                    if isinstance(c_, ast.Call) and isinstance(c_.func, ast.Attribute) and c_.func.attr in self.GROW and is_recv(c_.func.value) and any(self.keeps(x, n, 1) is not None for x in c_.args):
+                        hit = True
+            elif n.kind == "loop" and isinstance(a, (ast.For, ast.AsyncFor)) and self.keeps(a.iter, n, 1) is not None:
+                # for x in <locals>: container.append(x)
+                for st in a.body:
+                    for c_ in ast.walk(st):
+                        if isinstance(c_, ast.Call) and isinstance(c_.func, ast.Attribute) and c_.func.attr in self.GROW and is_recv(c_.func.value):
+                            hit = True
+            if hit:
+                grow.append(n)
+        if not grow:
+            return False
+        starts = [s for s, l in start.succs if l != "exc" and not any(s is g for g in grow)]
+        if not starts:
+            return True
+        r = cfg.reach(starts, avoid_nodes=grow, avoid_edges=self.none_edges)
+        return cfg.exit.id not in r
+
+    def reiterable_guard(self, node: Node) -> bool:
+        for t_, l in self.u.cfg.guards(node):
+            e = t_.ast
+            if l == "T" and isinstance(e, ast.Call) and dotted(e.func) == "isinstance" and len(e.args) == 2 and astq.is_name(e.args[0], self.lp):
+                ts = e.args[1].elts if isinstance(e.args[1], ast.Tuple) else [e.args[1]]
+                if ts and all(dotted(x) in ("list", "tuple", "set", "frozenset") for x in ts):
+                    return True
+        return False
 
 
 def _r2(ctx: Ctx, flow: Flow, storage, kinds: dict[str, str]) -> None:
@@ -322,14 +507,14 @@ def _r2(ctx: Ctx, flow: Flow, storage, kinds: dict[str, str]) -> None:
         if rel is None:
             raise AnalysisError(f"{cname}.__release_local__ missing")
         u = flow.unit_of(rel)
-        sets = flow.storage_calls(u, "set")
-        nodes = [x for x in (u.cfg.node_of(s) for s in sets) if x is not None]
+        sets = flow.bindings(u)
+        nodes = [x for x in (u.cfg.node_of(s) for s, _ in sets) if x is not None]
         covered = bool(nodes) and u.cfg.all_paths_pass(u.cfg.entry, [u.cfg.exit], nodes)
         n += 1
         ctx.ob("R18.2", f"{cname}.__release_local__ rebinds the ContextVar on every path", covered,
                f"{len(sets)} `.set` call(s)" + ("" if covered else "; a normal path through the method binds nothing: the payload stays (or is emptied in place)"), rel, rel.node, f"{cname} release rebinds")
-        for s in sets:
-            k = is_empty_literal(s.args[0]) if s.args else None
+        for s, v in sets:
+            k = flow.default_kind(v, u, c)
             ctx.ob("R18.2", f"{cname}.__release_local__ binds an empty {kinds[cname]}", k == kinds[cname], f"`{norm(s)}`: {'empty ' + k if k else 'not an empty container literal'}; reads default to an empty {kinds[cname]}", rel, s, f"{cname} release value {norm(s)}")
     ctx.floor("R18.2", "storage classes with a __release_local__", n, 2)
 
@@ -363,17 +548,23 @@ def _r2(ctx: Ctx, flow: Flow, storage, kinds: dict[str, str]) -> None:
     attr = next(iter(attrs))
     snodes = [x for x in (iu.cfg.node_of(node) for _, _, node in stores) if x is not None]
     ctx.ob("R18.2", "LocalManager.__init__ records the managed locals on every path", iu.cfg.all_paths_pass(iu.cfg.entry, [iu.cfg.exit], snodes), f"{len(stores)} store(s) of self.{attr}", init, init.node, "manager records locals")
+    keeper = _Keeps(flow, iu, lp, attr)
     for _, v, node in stores:
-        mentions = any(astq.is_name(x, lp) for x in ast.walk(v))
         cn = iu.cfg.node_of(node)
-        absent = False
-        if cn is not None:
-            for t_, l in iu.cfg.guards(cn):
-                nl = _none_test(t_, lambda e: astq.is_name(e, lp))
-                if nl is not None and nl == l:
-                    absent = True
-        ctx.ob("R18.2", f"LocalManager.__init__: `{norm(node)}` keeps every local it was given", mentions or absent,
-               "built from the parameter" if mentions else ("only when no locals were given" if absent else f"does not use `{lp}` although locals were given"), init, node, norm(node))
+        why = keeper.keeps(v, cn) if cn is not None else None
+        if why is None and cn is not None and keeper.built_up(cn, lambda e: isinstance(e, ast.Attribute) and e.attr == attr and flow.self_ref(e.value, iu)):
+            why = f"filled from `{lp}` afterwards on every path where locals were given"
+        ctx.ob("R18.2", f"LocalManager.__init__: `{norm(node)}` keeps every local it was given", why is not None,
+               why or f"does not use `{lp}` although locals were given", init, node, norm(node))
+        # cleanup() iterates the stored object once per call: it must be a container built here, not the caller's
+        # iterable (a generator / iterator argument would be exhausted by the first cleanup, later ones release nothing)
+        tags = flow.tags(v, iu)
+        own = set(tags) == {FRESH}
+        fact = f"stored value is {flow.describe(tags)}"
+        if not own and cn is not None and keeper.reiterable_guard(cn):
+            own, fact = True, f"`{lp}` itself, but only when it is a builtin list/tuple/set (re-iterable)"
+        ctx.ob("R18.2", f"LocalManager.__init__: `{norm(node)}` stores a container materialised in the constructor", own,
+               fact + ("" if own else f": `{lp}` may be a one-shot iterator, exhausted by the first cleanup() so that later cleanups release nothing"), init, node, f"materialises {norm(node)}")
 
     cu = flow.unit_of(cleanup)
     loops = []
@@ -382,6 +573,15 @@ def _r2(ctx: Ctx, flow: Flow, storage, kinds: dict[str, str]) -> None:
             it = x.iter
             if isinstance(it, ast.Call) and dotted(it.func) in ("list", "tuple", "reversed", "iter", "sorted") and len(it.args) == 1 and not it.keywords:
                 it = it.args[0]
+            if isinstance(it, ast.Name):  # managed = self.locals; for local in managed
+                hn = cu.cfg.node_of(x)
+                defs = cu.rd.reaching(hn, it.id) if hn is not None else frozenset()
+                if len(defs) == 1:
+                    d0 = next(iter(defs))
+                    if d0.kind in ("assign", "walrus") and d0.index is None and d0.value is not None:
+                        it = d0.value
+                        if isinstance(it, ast.Call) and dotted(it.func) in ("list", "tuple", "reversed", "iter", "sorted") and len(it.args) == 1 and not it.keywords:
+                            it = it.args[0]
             if isinstance(it, ast.Attribute) and flow.self_ref(it.value, cu) and it.attr == attr:
                 loops.append(x)
     ctx.ob("R18.2", "LocalManager.cleanup iterates over all managed locals", len(loops) >= 1, f"{len(loops)} loop(s) over self.{attr}", cleanup, cleanup.node, "cleanup loop")
@@ -459,7 +659,7 @@ def _r3(ctx: Ctx, flow: Flow, storage) -> list[Variant]:
         n_use += 1
         ctx.ob("R18.3", f"LocalProxy.__init__ only type-tests or stores `{P}`", ok,
                f"`{norm(par) if par is not None else P}`" + ("" if ok else ": evaluated when the proxy is created, not when it is used"), init, n, f"constructor use {norm(par) if par is not None else P}")
-    ctx.floor("R18.3", "uses of the proxied object in LocalProxy.__init__ outside the nested functions", n_use, 6)
+    ctx.floor("R18.3", "uses of the proxied object in LocalProxy.__init__ outside the nested functions", n_use, 4)
 
     # (b) the installed _get_current_object variants
     installs = [c_ for c_ in iu.walk() if isinstance(c_, ast.Call) and dotted(c_.func) in ("object.__setattr__", "setattr") and len(c_.args) == 3 and astq.const_str(c_.args[1]) == "_get_current_object"]
@@ -470,28 +670,66 @@ def _r3(ctx: Ctx, flow: Flow, storage) -> list[Variant]:
     ctx.ob("R18.3", "LocalProxy.__init__ installs _get_current_object on every normal path", inode is not None and iu.cfg.all_paths_pass(iu.cfg.entry, [iu.cfg.exit], [inode]), norm(inst), init, inst, "installs resolver")
     val = inst.args[2]
     variants: list[Variant] = []
-    if isinstance(val, ast.Name) and inode is not None:
-        defs = iu.rd.reaching(inode, val.id)
-        for d in sorted(defs, key=lambda d: getattr(d.stmt, "lineno", 0)):
+    kind_names = {f"werkzeug.{LOCAL}.Local": "Local", f"werkzeug.{LOCAL}.LocalStack": "LocalStack", CONTEXTVAR: "ContextVar"}
+
+    def plain(e: ast.AST, at: Node, depth: int = 0) -> ast.AST:
+        """a name that is a plain copy of another expression (one reaching definition) stands for that expression."""
+        if isinstance(e, ast.NamedExpr):
+            return plain(e.value, at, depth)
+        if isinstance(e, ast.Name) and depth < 4:
+            defs = iu.rd.reaching(at, e.id)
+            if len(defs) == 1:
+                d0 = next(iter(defs))
+                if d0.kind in ("assign", "walrus") and d0.index is None and d0.value is not None and d0.node is not None:
+                    return plain(d0.value, d0.node, depth + 1)
+        return e
+
+    def type_test(t_: Node, label: str) -> str | None:
+        """kind of the proxied object that taking edge (t_, label) establishes."""
+        e = plain(t_.ast, t_) if t_.ast is not None else None
+        if label != "T" or not isinstance(e, ast.Call) or not e.args or not astq.is_name(e.args[0], P):
+            return None
+        fn = dotted(e.func)
+        if fn == "isinstance" and len(e.args) == 2:
+            fq = repo.resolve(mod, dotted(e.args[1]) or "?") or ""
+            return kind_names.get(fq, fq or "?")
+        if fn == "callable":
+            return "callable"
+        return None
+
+    def resolver_defs(name: str, at: Node, depth: int = 0) -> list | None:
+        """function definitions a name may stand for (through plain renamings `getter = _from_stack`)."""
+        out = []
+        for d in iu.rd.reaching(at, name):
             if d.kind == "def" and isinstance(d.stmt, (ast.FunctionDef, ast.AsyncFunctionDef)):
-                vu = flow.unit_of(d.stmt)
-                kind = "?"
-                dn = iu.cfg.node_of(d.stmt)
-                if dn is not None:
-                    for t_, l in iu.cfg.guards(dn):
-                        e = t_.ast
-                        if l == "T" and isinstance(e, ast.Call) and e.args and astq.is_name(e.args[0], P):
-                            fn = dotted(e.func)
-                            if fn == "isinstance" and len(e.args) == 2:
-                                fq = repo.resolve(mod, dotted(e.args[1]) or "?") or ""
-                                kind = {f"werkzeug.{LOCAL}.Local": "Local", f"werkzeug.{LOCAL}.LocalStack": "LocalStack", CONTEXTVAR: "ContextVar"}.get(fq, fq)
-                            elif fn == "callable":
-                                kind = "callable"
-                variants.append(Variant(vu, kind, d.stmt))
+                out.append(d)
+            elif d.kind in ("assign", "walrus") and d.index is None and isinstance(d.value, ast.Name) and d.node is not None and depth < 4:
+                sub = resolver_defs(d.value.id, d.node, depth + 1)
+                if sub is None:
+                    return None
+                out.extend(sub)
             else:
-                ctx.ob("R18.3", "the installed resolver is a function defined in the constructor", False, f"`{val.id}` may be bound by a {d.kind}", init, inst, f"resolver binding {d.kind}")
-    else:
-        ctx.ob("R18.3", "the installed resolver is a function defined in the constructor", False, f"`{norm(val)}`", init, inst, "resolver expression")
+                return None
+        return out or None
+
+    rdefs = resolver_defs(val.id, inode) if isinstance(val, ast.Name) and inode is not None else None
+    if rdefs is None:
+        # a factory call, a lambda, functools.partial ...: nothing says it is wrong, but its body cannot be inspected here
+        raise AnalysisError(f"LocalProxy.__init__ installs `{norm(val)}` as _get_current_object: not (only) functions defined in the constructor, cannot inspect the resolvers")
+    seen_defs: set[int] = set()
+    for d in sorted(rdefs, key=lambda d: getattr(d.stmt, "lineno", 0)):
+        if id(d.stmt) in seen_defs:
+            continue
+        seen_defs.add(id(d.stmt))
+        vu = flow.unit_of(d.stmt)
+        kind = "?"
+        dn = iu.cfg.node_of(d.stmt)
+        if dn is not None:
+            for t_, l in iu.cfg.guards(dn):
+                k_ = type_test(t_, l)
+                if k_ is not None:
+                    kind = k_
+        variants.append(Variant(vu, kind, d.stmt))
     ctx.floor("R18.3", "_get_current_object variants", len(variants), 4)
     kinds_found = sorted(v.kind for v in variants)
     for need in ("ContextVar", "Local", "LocalStack"):
@@ -687,7 +925,13 @@ def _r4(ctx: Ctx, flow: Flow, storage, kinds: dict[str, str], variants: list[Var
     ctx.ob("R18.4", "_ProxyLookup.__init__ keeps the declared fallback", len(fb_attrs) == 1 and "fallback" in flow.unit_of(pinit).fi.params, f"stored as {fb_attrs}", pinit, pinit.node, "fallback stored")
     fb_attr = fb_attrs[0] if fb_attrs else "fallback"
 
-    def is_fb(e: ast.AST) -> bool:
+    def is_fb(e: ast.AST, depth: int = 0) -> bool:
+        if isinstance(e, ast.NamedExpr):
+            return is_fb(e.value, depth)
+        if isinstance(e, ast.Name) and depth < 4:  # declared = self.fallback ... if declared is None
+            node = gcfg.node_of(e)
+            defs = gu.rd.reaching(node, e.id) if node is not None else frozenset()
+            return bool(defs) and all(d.kind in ("assign", "walrus") and d.index is None and d.value is not None and is_fb(d.value, depth + 1) for d in defs)
         return isinstance(e, ast.Attribute) and flow.self_ref(e.value, gu) and e.attr == fb_attr
 
     for c_ in calls:
